@@ -307,7 +307,7 @@ def run(ctx):
 
     # ---- (b), (c): fault / abandonment enumeration -----------------------------------------------
     nproc = 10
-    modes = [("fault", ["--sample", "24" if quick else "0", "--sample-from", "0"]),
+    modes = [("fault", ["--sample", "60" if quick else "0", "--sample-from", "0"]),
              ("abandon", []), ("weight", [])]
     jobs = []
     for mode, extra in modes:
@@ -403,7 +403,7 @@ def run(ctx):
         "rule": "one evaluation = one (scenario, k) run with the k-th event failing (k-th allocation: operator new or GMP; k-th maybe_abandon() "
                 "checkpoint; deterministic timeout at the weight of the k-th checkpoint) or one rejected call; distinct by (scenario, k) / by "
                 "journal line; non-trivial = the fault actually fired inside the armed call, resp. the call was rejected with an exception. "
-                + ("quick tier: every k of the 40 protocol-level scenarios, about 24 evenly spaced k (offset by the seed) of every other scenario" if quick
+                + ("quick tier: every k of the 40 protocol-level scenarios, about 60 evenly spaced k (offset by the seed) of every other scenario" if quick
                    else "thorough tier: every k of every scenario"),
         "samples": samples[:10],
         "traces_validated_against_impl": stats["machine_runs_matching_model"],
